@@ -161,9 +161,11 @@ func iterateNode(context *Context, v reflect.Value) {
 	context.EventReceiver.OnNode()
 	iterateInterface(context, v.Field(types.NodeFieldIndexValue))
 	children := v.Field(types.NodeFieldIndexChildren)
+	context.enterReference()
 	for i := 0; i < children.Len(); i++ {
 		iterateInterface(context, children.Index(i))
 	}
+	context.leaveReference()
 	context.EventReceiver.OnEndContainer()
 }
 
